@@ -61,6 +61,208 @@ def _shape(b) -> tuple:
     return (b.source, b.mode, b.gran, tuple(sorted((g.kind, _canon(c01.show(g.guard))) for g in b.groups)))
 
 
+# --------------------------------------------------------------------------- duality: the same arguments, not only the same sides
+
+
+def _ren(t, m: dict):
+    if isinstance(t, tuple):
+        if len(t) == 2 and t[0] == "root":
+            return ("root", m.get(t[1], t[1]))
+        return tuple(_ren(x, m) for x in t)
+    return t
+
+
+def _split_call(t: tuple) -> tuple[list, dict]:
+    pos, kw = [], {}
+    for x in t[2:]:
+        if isinstance(x, tuple) and len(x) == 3 and x[0] == "kw":
+            kw[x[1]] = x[2]
+        else:
+            pos.append(x)
+    return pos, kw
+
+
+def _is_const(t) -> bool:
+    return isinstance(t, tuple) and len(t) == 2 and t[0] == "const"
+
+
+def _option_diffs(t1, t2, m1: dict, m2: dict, out: list) -> bool:
+    """Walks two argument terms in parallel (roots renamed by m1 / m2).  True when they are equal *up to constant options of calls of
+    the same function* (a constant positional or keyword argument that differs or is given on one side only); the pairs of call
+    terms that differ that way are collected in `out`.  False: the terms differ in another way (not comparable here)."""
+    if _ren(t1, m1) == _ren(t2, m2):
+        return True
+    if not (isinstance(t1, tuple) and isinstance(t2, tuple) and t1 and t2 and t1[0] == t2[0]):
+        return False
+    if t1[0] == "call" and len(t1) >= 2 and len(t2) >= 2 and t1[1] == t2[1]:
+        p1, k1 = _split_call(t1)
+        p2, k2 = _split_call(t2)
+        if len(p1) != len(p2):
+            return False
+        differs = False
+        for a, b in zip(p1, p2):
+            if _ren(a, m1) == _ren(b, m2):
+                continue
+            if _is_const(a) and _is_const(b):
+                differs = True
+            elif not _option_diffs(a, b, m1, m2, out):
+                return False
+        for k in {*k1, *k2}:
+            a, b = k1.get(k), k2.get(k)
+            if a is not None and b is not None and _ren(a, m1) == _ren(b, m2):
+                continue
+            if (a is None or _is_const(a)) and (b is None or _is_const(b)):
+                differs = True
+            elif a is None or b is None or not _option_diffs(a, b, m1, m2, out):
+                return False
+        if differs:
+            out.append((t1, t2))
+        return True
+    if len(t1) != len(t2):
+        return False
+    return all(_option_diffs(a, b, m1, m2, out) for a, b in zip(t1, t2))
+
+
+def _steps_to(term, target) -> list | None:
+    """Constant subscripts that lead from a call's result to the value used (`convert(..)[0]`): [0]; None when the call's result
+    is used in another way."""
+    steps = []
+    t = term
+    while t != target:
+        if isinstance(t, tuple) and len(t) == 3 and t[0] == "index" and _is_const(t[2]):
+            steps.append(t[2][1])
+            t = t[1]
+        else:
+            return None
+    return list(reversed(steps))
+
+
+def _deep(v, depth: int = 0) -> str:
+    """A value with the conditions of its parts spelled out (what `term_of` leaves out)."""
+    from .absint import Alt, Coll, DictV, Inst, Tup, show_term, term_of
+
+    if depth > 6:
+        return "..."
+    if isinstance(v, Alt):
+        return "alt(" + "; ".join(f"{c01.show(g)} -> {_deep(o, depth + 1)}" for g, o in v.options) + ")"
+    if isinstance(v, Coll):
+        return "[" + "; ".join(f"{_deep(x, depth + 1)} if {c01.show(g)}" for x, g in v.entries) + "]"
+    if isinstance(v, DictV):
+        return "{" + "; ".join(f"{_deep(k, depth + 1)}: {_deep(x, depth + 1)} if {c01.show(g)}" for k, x, g in v.entries) + "}"
+    if isinstance(v, Tup):
+        return "(" + ", ".join(_deep(x, depth + 1) for x in v.items) + ")"
+    if isinstance(v, Inst):
+        return f"{v.cls.name}(" + ", ".join(f"{k}={_deep(x, depth + 1)}" for k, x in sorted(v.fields.items())) + ")"
+    return show_term(term_of(v))
+
+
+def _canon_all(text: str) -> str:
+    import re
+
+    ids: dict[str, str] = {}
+    return re.sub(r"(val@|\bval|\bkey|\belem|#)(\d+)", lambda m: m.group(1) + ids.setdefault(m.group(1)[-1:] + m.group(2), str(len(ids) + 1)), text)
+
+
+def option_effect(repo: Repo, ev, steps: list) -> tuple[str, list]:
+    """The value a recorded call yields (after the constant subscripts `steps`), interpreted inside the callee's module with the
+    call's constant arguments kept and every other argument symbolic: (canonical text incl. the conditions of its parts, notes)."""
+    from .absint import ClsV, Const, Fn, Interp, Sym, Tup
+    from .tables import simple_helper
+
+    callee = ev.callee
+    home = callee.module.name
+    I = Interp(repo, lambda f: f.module.name == home or ((f.cls is None or f.is_staticmethod) and f.outer is None and simple_helper(f)))
+
+    def sym(i, a):
+        return a if isinstance(a, Const) else Sym(("root", f"ARG{i}"), getattr(a, "cls", None) or "list")
+
+    args = [sym(i, a) for i, a in enumerate(ev.args)]
+    kwargs = {k: sym(k, a) for k, a in ev.kwargs.items()}
+    if callee.cls is not None and callee.outer is None and not callee.is_staticmethod:
+        fn = I.getattr(ClsV(callee.cls), callee.name, None, None) if callee.is_classmethod else Fn(callee, Sym(("root", "SELF"), callee.cls.fq))
+    else:
+        fn = Fn(callee)
+    out = I.apply(fn, args, kwargs, None, None)
+    for st in steps:
+        if isinstance(out, Tup) and st.lstrip("-").isdigit() and -len(out.items) <= int(st) < len(out.items):
+            out = out.items[int(st)]
+        else:
+            return _canon_all(_deep(out)) + f" [{'/'.join(steps)}]", list(I.notes)
+    return _canon_all(_deep(out)), list(I.notes)
+
+
+def run_same_arguments(repo: Repo, res: Result) -> None:
+    """'A should (not) import B' and 'B should (not) be imported by A' ask their questions with the same arguments: written as
+    functions of the named importers X and importees Y (import rule: subjects = X, objects = Y; its dual: objects = X, subjects =
+    Y), the i-th argument of the question is the same term.  Decided where the two terms differ only in *constant options* of a
+    call of one function (a flag passed when the rule subjects are converted but not for the rule objects, ...): the callee is
+    interpreted under both option sets; the law is broken when the value that reaches the question differs."""
+    from .absint import roots_of, show_term, term_of
+    from .tables import bound_args
+
+    seen: set = set()
+    compared = 0
+    site = None
+    for verb, exc in LEGAL_POINTS:
+        runs = {imp: run_scenario(repo, Scenario(verb, exc, imp)) for imp in (True, False)}
+        for kind in ("explicit", "other"):
+            qs = {imp: next((q for q in runs[imp].queries if (q.name == EXPLICIT_QUERY) == (kind == "explicit") and c01._sat(q.guard)), None) for imp in (True, False)}
+            if qs[True] is None or qs[False] is None:
+                continue
+            site = site or qs[True]
+            a_imp, a_bib = bound_args(repo, qs[True]), bound_args(repo, qs[False])
+            if len(a_imp) < 2 or len(a_bib) < 2:
+                continue
+            for i, role in ((0, "importers"), (1, "importees")):
+                t1, t2 = term_of(a_imp[i]), term_of(a_bib[i])
+                m1, m2 = {"S": "X", "O": "Y"}, {"O": "X", "S": "Y"}
+                compared += 1
+                pairs: list = []
+                if _ren(t1, m1) == _ren(t2, m2) or not _option_diffs(t1, t2, m1, m2, pairs) or not pairs:
+                    continue
+                for c1, c2 in pairs:
+                    key = (_ren(c1, m1), _ren(c2, m2))
+                    if key in seen:
+                        continue
+                    seen.add(key)
+                    e1 = next((e for e in runs[True].interp.events if e.kind == "call" and e.result is not None and e.callee is not None and term_of(e.result) == c1), None)
+                    e2 = next((e for e in runs[False].interp.events if e.kind == "call" and e.result is not None and e.callee is not None and term_of(e.result) == c2), None)
+                    if e1 is None or e2 is None or e1.callee.fq != e2.callee.fq:
+                        continue
+                    steps = _steps_to(t1, c1)
+                    steps2 = _steps_to(t2, c2)
+                    if steps != steps2:
+                        continue
+                    v1, n1 = option_effect(repo, e1, steps or [])
+                    v2, n2 = option_effect(repo, e2, steps or [])
+                    ev = e1 if len(c1) >= len(c2) else e2  # the call that carries the extra option
+                    cons = f"{ev.fi.relpath}::{ev.fi.qualname}::{e1.callee.name}(...) options [{role} @ {kind} question]"
+                    side1 = "rule subjects" if i == 0 else "rule objects"
+                    side2 = "rule objects" if i == 0 else "rule subjects"
+                    if v1 == v2:
+                        res.add("C12.DUAL", cons, True, f"`{show_term(c1)[:90]}` / `{show_term(c2)[:90]}`: the differing constant option does not change the value that reaches the question", where(ev.fi, ev.node), kind="flow")
+                    elif n1 or n2:
+                        res.undecide("C12.DUAL", cons, f"the {role} of the {kind} question are `{show_term(c1)[:100]}` for an import rule but `{show_term(c2)[:100]}` for its dual, and {e1.callee.qualname} is not fully modelled ({'; '.join((n1 or n2)[:2])})", where(ev.fi, ev.node))
+                    else:
+                        res.add(
+                            "C12.DUAL", cons, False,
+                            f"the {role} of the {kind} question are obtained as `{show_term(_ren(c1, m1))[:110]}` for 'X should import Y' ({side1}) but as `{show_term(_ren(c2, m2))[:110]}` for the dual 'Y should be imported by X' ({side2}), "
+                            f"and inside {e1.callee.qualname} the differing option changes the result (`{_first_difference(v1, v2)}`): a rule and its dual no longer ask the same question",
+                            where(ev.fi, ev.node), kind="flow",
+                        )
+    if site is not None:
+        res.add("C12.DUAL", f"{site.fi.relpath}::{site.fi.qualname}::arguments as functions of (importers, importees)", True, f"{compared} argument pairs of a rule and its dual compared", where(site.fi, site.node), kind="flow", nontrivial=False)
+
+
+def _first_difference(a: str, b: str) -> str:
+    """The first parts (`element if condition`) of two canonical value texts that differ."""
+    pa, pb = a.split("; "), b.split("; ")
+    for x, y in zip(pa, pb):
+        if x != y:
+            return f"{x[:150]}  <>  {y[:150]}"
+    return f"{len(pa)} parts <> {len(pb)} parts"
+
+
 def run(repo: Repo) -> Result:
     res = Result("C12")
     res.explanation = (
@@ -112,6 +314,7 @@ def run(repo: Repo) -> Result:
     tmp = Result("C01")
     c01.run_t4(repo, tmp, None)
     _relabel(tmp, res, "C01.T4", "C12.DUAL")
+    run_same_arguments(repo, res)
     # ---- negation
     for exc in (False, True):
         for imp in (True, False):
